@@ -119,6 +119,18 @@ where
     for definition in &query.definitions {
         match definition {
             graphql_parser::query::Definition::Fragment(fragment) => {
+                // Fragments are looked up by name: a second definition with the same name would be
+                // resolved and validated as part of the first one.
+                if resolved_query
+                    .find_fragment(fragment.name.as_ref())
+                    .is_some()
+                {
+                    return Err(QueryValidationError::new(format!(
+                        "There can be only one fragment named `{}`.",
+                        fragment.name.as_ref()
+                    )));
+                }
+
                 let graphql_parser::query::TypeCondition::On(on) = &fragment.type_condition;
                 resolved_query.fragments.push(ResolvedFragment {
                     name: fragment.name.as_ref().into(),
@@ -152,6 +164,7 @@ where
                     _operation_type: operations::OperationType::Mutation,
                     selection_set: Vec::with_capacity(m.selection_set.items.len()),
                 };
+                validate_operation_name_is_unique(resolved_query, &resolved_operation.name)?;
 
                 resolved_query.operations.push(resolved_operation);
             }
@@ -165,6 +178,7 @@ where
                     object_id: on,
                     selection_set: Vec::with_capacity(q.selection_set.items.len()),
                 };
+                validate_operation_name_is_unique(resolved_query, &resolved_operation.name)?;
 
                 resolved_query.operations.push(resolved_operation);
             }
@@ -194,6 +208,7 @@ where
                     object_id: on,
                     selection_set: Vec::with_capacity(s.selection_set.items.len()),
                 };
+                validate_operation_name_is_unique(resolved_query, &resolved_operation.name)?;
 
                 resolved_query.operations.push(resolved_operation);
             }
@@ -205,6 +220,21 @@ where
                 ))
             }
         }
+    }
+
+    Ok(())
+}
+
+/// Operations are looked up by name as well (see the fragment case in `create_roots`).
+fn validate_operation_name_is_unique(
+    resolved_query: &mut Query,
+    name: &str,
+) -> Result<(), QueryValidationError> {
+    if resolved_query.find_operation(name).is_some() {
+        return Err(QueryValidationError::new(format!(
+            "There can be only one operation named `{}`.",
+            name
+        )));
     }
 
     Ok(())
